@@ -12,6 +12,7 @@ import itertools
 import json
 import random as pyrandom
 import re
+import time
 
 import vlib
 from vlib import vZ, vbool, vlist, vopt, vpair
@@ -75,11 +76,19 @@ def _dense(x):
     return {"shape": [int(s) for s in d.shape], "flat": [_ival(v) for v in d.reshape(-1)]}
 
 
-def _tocoo(x):
+def _raw_any(x):
+    """concrete stored elements of a COO / GCXS / DOK result in row-major order (DOK: its dict, sorted, so that
+    the DOK -> COO conversion is not on the path)"""
     import sparse
     if isinstance(x, sparse.COO):
-        return x
-    return x.asformat("coo")
+        return _raw(x), [float(v).hex() for v in x.data.astype(float)]
+    if isinstance(x, sparse.DOK):
+        items = sorted((tuple(int(i) for i in k), v) for k, v in x.data.items())
+        return ({"shape": [int(s) for s in x.shape], "coords": [list(k) for k, _v in items],
+                 "data": [_ival(v) for _k, v in items], "fill": _ival(x.fill_value)},
+                [float(v).hex() for _k, v in items])
+    c = x.tocoo()
+    return _raw(c), [float(v).hex() for v in c.data.astype(float)]
 
 
 def impl_eye(case):
@@ -99,6 +108,7 @@ def _mk_src(kind, shape, dt):
     import numpy as np
     import sparse
     a = (np.arange(int(np.prod(shape, dtype=int)) or 0).reshape(shape) % 3).astype(dt)
+    a = np.asarray(a)              # (x % 3 on a 0-d array gives a NumPy scalar)
     if kind == "ndarray":
         return a
     return getattr(sparse, CLS[kind]).from_numpy(a)
@@ -158,7 +168,7 @@ def impl_asarray(case):
         obj = getattr(sparse, CLS[kind]).from_numpy(a)
     kw = {} if dt is None else {"dtype": np.dtype(dt)}
     x = sparse.asarray(obj, format=fmt, **kw)
-    ref = np.asarray(a if kind != "scalar" else obj, **kw)
+    ref = np.asarray(obj if kind in ("ndarray", "list", "scalar") else a, **kw)
     out = {"type": type(x).__name__, "dense": _dense(x), "dtype": str(x.dtype), "np_dtype": str(ref.dtype),
            "src": _dense(ref), "fill": _ival(x.fill_value)}
     if isinstance(x, sparse.COO) and kind in ("ndarray", "list", "scalar"):
@@ -252,13 +262,13 @@ def impl_random(case):
         out["raw"] = None
         return out
     out["type"] = type(x1).__name__
-    c1, c2, c3 = _tocoo(x1), _tocoo(x2), _tocoo(x3)
 
-    def key(c):
-        return (c.shape, c.coords.tobytes(), str(c.coords.dtype), np.asarray(c.data).tobytes(), str(c.data.dtype),
-                np.asarray(c.fill_value).tobytes())
-    out["same"] = key(c1) == key(c2) == key(c3)
-    raw = _raw(c1)
+    def key(x):
+        r, hx = _raw_any(x)
+        return (type(x).__name__, str(x.dtype), json.dumps(r, sort_keys=True), tuple(hx),
+                float(np.asarray(x.fill_value)).hex())
+    out["same"] = key(x1) == key(x2) == key(x3)
+    raw = _raw_any(x1)[0]
     if sampler != "arange":
         raw["data"] = [1] * len(raw["data"])          # float samples: only their number is compared
     out["raw"] = raw
@@ -647,6 +657,12 @@ def campaign(build, tier, seed, report, budget=1):
     diff_only = {"dtype_checks": 0}
     evaluations = 0
     distinct = set()
+    phases = {}
+    t_ph = [time.time()]
+
+    def phase(name):
+        phases[name] = round(time.time() - t_ph[0], 1)
+        t_ph[0] = time.time()
 
     def bad_result(r):
         return r is None or "hang" in r or "crash" in r or ("exc" in r and "dense" not in r and "calls" not in r
@@ -680,6 +696,7 @@ def campaign(build, tier, seed, report, budget=1):
                       f"print(x.todense(), np.eye({N},{M},{k},dtype='{dt}'))"))
     tags["eye"] = hist({0: "zeros_shortcut", 1: "k>0", 2: "k<0", 3: "k=0"}.get(t, t) for t in tg)
     evaluations += len(cases)
+    phase("eye")
     sample_eye = dict(case=cases[len(cases) // 3], impl=res[len(cases) // 3])
 
     # ---------------------------------------------------------------- full / zeros / ones / empty (+_like)
@@ -716,6 +733,7 @@ def campaign(build, tier, seed, report, budget=1):
                       {1: None, 2: "dense_differs_from_numpy"}[code], c, r,
                       f"import sparse; print(sparse.{names[c[0]]}.__name__, {c!r})"))
     evaluations += len(cases)
+    phase("fill_functions")
     sample_full = dict(case=cases[len(cases) // 2], impl=res[len(cases) // 2])
 
     # ---------------------------------------------------------------- asarray
@@ -754,6 +772,8 @@ def campaign(build, tier, seed, report, budget=1):
                       {1: None, 2: "dense_differs_from_source"}[code], c, r, f"# asarray case {c!r}"))
     evaluations += len(cases)
 
+    phase("asarray")
+
     # ---------------------------------------------------------------- random (API)
     cases = random_cases(tier, rng)
     res = vlib.run_impl("props.c19", "impl_random", cases, workers=12, per_case_timeout=60.0)
@@ -791,8 +811,8 @@ def campaign(build, tier, seed, report, budget=1):
                         V.append(viol("random", "value", "idx_dtype_too_small_accepted", c, r, rp))
                     continue
                 if r["exc"] is not None:
-                    V.append(viol("random", "value", "idx_dtype_rejected_although_it_fits", c, r, rp,
-                                  detail=r["exc"]))
+                    V.append(viol("random", "value", "idx_dtype_on_0d_shape_raises" if not sh else
+                                  "idx_dtype_rejected_although_it_fits", c, r, rp, detail=r["exc"]))
                     continue
                 if fmt == "coo" and r.get("idx_dtype") != idxdt:
                     V.append(viol("random", "value", "idx_dtype_not_honoured", c, r, rp))
@@ -842,6 +862,7 @@ def campaign(build, tier, seed, report, budget=1):
         report["notes"].append(f"random branches hit fewer times than the target: {missing}")
     evaluations += 3 * len(cases)
     tags["random_idx_dtype_cases"] = n_idx_checked
+    phase("random_api")
     sample_random = dict(case=cases[len(cases) // 2], impl=res[len(cases) // 2])
 
     # ---------------------------------------------------------------- kernels
@@ -910,6 +931,7 @@ def campaign(build, tier, seed, report, budget=1):
                           "kernel_output_not_a_sample" if code == 2 and kind != "reverse" else
                           "reverse_not_the_complement" if code == 2 else None, c[:4], r,
                           f"# kernel case {c[:4]!r} (stream omitted)", detail=f"judge code {code}"))
+    phase("kernels")
     tags["kernels"] = dict(sorted(ktags.items()))
     evaluations += len(cases)
 
@@ -924,6 +946,7 @@ def campaign(build, tier, seed, report, budget=1):
                    "decisions and compiled with seeded Generators, int(elements*density) grid.  distinct = distinct "
                    "inputs ignoring seed/format/dtype")
     cov["exhaustive"] = False
+    cov["phase_seconds"] = phases
     cov["samples"] = [sample_eye, sample_full, sample_random]
     cov["branch_tags"] = tags
     cov["differential_only"] = dict(diff_only, note="result dtype and class compared with NumPy's in Python")
